@@ -50,7 +50,9 @@ Record cfg := {
   c_traits : list (Z * tcfg)
 }.
 
-Inductive op := SetA (n : Z) (v : atom) | GetA (n : Z) | DelA (n : Z).
+Inductive op := SetA (n : Z) (v : atom) | GetA (n : Z) | DelA (n : Z)
+              | ValA (n : Z) (v : atom)      (* CTrait.validate(obj, name, v): _trait_validate 4505-4521 *)
+              | DefA (n : Z).                (* CTrait.default_value_for(obj, name): 3177-3188 *)
 
 Definition dict := list (Z * atom).
 Definition ledger := list (atom * Z).
@@ -329,6 +331,20 @@ Definition do_op (c : cfg) (d : dict) (o : op) : res :=
                           | KTrait => delattr_trait c t d n
                           | KEvent => mk d Ok 0 [] None                 (* setattr_event, value == NULL *)
                           | KProp => mk d (Raise TraitError) 0 [] None  (* set_delete_property_error *)
+                          end
+              | None => mk d (Raise AttributeError) 0 [] None
+              end
+  | ValA n v => match tlookup (c_traits c) n with
+                | Some t => match validate t v [] with               (* NULL validator: Py_INCREF(value) *)
+                            | (Some w, _, l1) => mk d Ok 0 l1 (Some w)
+                            | (None, e, l1) => mk d (Raise e) 0 l1 None
+                            end
+                | None => mk d (Raise AttributeError) 0 [] None
+                end
+  | DefA n => match tlookup (c_traits c) n with
+              | Some t => match default_value_for t [] with
+                          | (Some r, _, l1) => mk d Ok 0 l1 (Some r)
+                          | (None, e, l1) => mk d (Raise e) 0 l1 None
                           end
               | None => mk d (Raise AttributeError) 0 [] None
               end
